@@ -498,16 +498,23 @@ func (fv *FuncVer) step(st *State, ins ssa.Instruction) bool {
 		// the spawned function is verified separately against its own contract;
 		// the spawner learns nothing and shared state may change at any time.
 		fv.note(st, "go statement: spawned function not followed")
+		fv.recordEventT(st, "go", nil, nil, x)
+		fv.afterCall(st, "go")
 	case *ssa.Range:
 		fv.rangeInit(st, x)
 	case *ssa.Next:
 		fv.next(st, x)
 	case *ssa.MakeChan:
-		fv.setReg(st, x, fv.newRef(st))
+		r := fv.newRef(st)
+		fv.setReg(st, x, r)
+		// a new channel is open
+		st.assume(Not(Select(fv.chanClosed(st), r)))
 	case *ssa.Send:
-		fv.note(st, "channel send ignored")
+		fv.recordEventT(st, "chan.send", []*Term{fv.safeTerm(fv.val(st, x.Chan))}, nil, x)
+		fv.afterCall(st, "chan.send")
+		fv.note(st, "channel send: recorded as an event, no data flow")
 	case *ssa.Select:
-		panic(unsupported("select statement"))
+		fv.selectStmt(st, x)
 	case *ssa.SliceToArrayPointer:
 		sl := fv.tval(st, x.X)
 		at := x.Type().Underlying().(*types.Pointer).Elem()
@@ -627,9 +634,11 @@ func (fv *FuncVer) unop(st *State, x *ssa.UnOp) {
 			fv.setReg(st, x, c.Func("not_"+basicOf(t).Name(), SInt, fv.tval(st, x.X)))
 		}
 	case token.ARROW:
-		// channel receive: arbitrary value
+		// channel receive: arbitrary value (recorded as an event "chan.recv")
 		et := x.X.Type().Underlying().(*types.Chan).Elem()
 		v := fv.freshVal(st, "recv", et)
+		fv.recordEventT(st, "chan.recv", []*Term{fv.safeTerm(fv.val(st, x.X))}, nil, x)
+		fv.afterCall(st, "chan.recv")
 		if x.CommaOk {
 			st.top().regs[x] = &Tuple{[]Val{v, fv.ctx.Fresh("recvok", SBool)}}
 		} else {
@@ -638,6 +647,59 @@ func (fv *FuncVer) unop(st *State, x *ssa.UnOp) {
 	default:
 		panic(unsupported("unop " + x.Op.String()))
 	}
+}
+
+// Channels (minimal model for shutdown logic): a channel is a reference; chanClosed maps
+// references to "has been closed"; closeOnly marks channels that are never sent on (a contract
+// says so with closeonly(c)), for which a receive can only succeed once the channel is closed.
+func (fv *FuncVer) chanClosed(st *State) *Term {
+	if t, ok := st.globals["chan:closed"]; ok {
+		return t
+	}
+	t := fv.ctx.Const("chan_closed0", fv.ctx.ArraySort(SInt, SBool))
+	st.globals["chan:closed"] = t
+	if st.old != nil && st.old != st {
+		if _, ok := st.old.globals["chan:closed"]; !ok {
+			st.old.globals["chan:closed"] = t
+		}
+	}
+	return t
+}
+
+func (fv *FuncVer) closeOnly() *Term {
+	return fv.ctx.Const("chan_closeonly", fv.ctx.ArraySort(SInt, SBool))
+}
+
+// selectStmt: the chosen case is an unknown index. Without a default some case is chosen; with
+// a default, the default (-1) is only taken when no receive on a closed channel is possible. A
+// receive from a close-only channel can be chosen only when that channel is closed.
+func (fv *FuncVer) selectStmt(st *State, x *ssa.Select) {
+	c := fv.ctx
+	idx := c.Fresh("selidx", SInt)
+	n := int64(len(x.States))
+	lo := int64(0)
+	if !x.Blocking {
+		lo = -1
+	}
+	st.assume(And(ILe(IntLit(lo), idx), ILt(idx, IntLit(n))))
+	closed := fv.chanClosed(st)
+	vals := []Val{idx, c.Fresh("selok", SBool)}
+	for i, sst := range x.States {
+		ch := fv.safeTerm(fv.val(st, sst.Chan))
+		if sst.Dir == types.RecvOnly {
+			if !x.Blocking {
+				st.assume(Implies(Select(closed, ch), Not(Eq(idx, IntLit(-1)))))
+			}
+			st.assume(Implies(And(Eq(idx, IntLit(int64(i))), Select(fv.closeOnly(), ch)), Select(closed, ch)))
+			et := sst.Chan.Type().Underlying().(*types.Chan).Elem()
+			vals = append(vals, fv.freshVal(st, "selrecv", et))
+		}
+	}
+	fv.recordEventT(st, "select", []*Term{idx}, nil, x)
+	st.top().regs[x] = &Tuple{vals}
+	// `aftercall select : g = ...` may refer to the chosen case as selcase
+	st.globals["sel:case"] = idx
+	fv.afterCall(st, "select")
 }
 
 func (fv *FuncVer) binop(st *State, x *ssa.BinOp) *Term {
